@@ -78,6 +78,15 @@ func C15(r *core.Run) int {
 			// every third mutant runs without the API handler (client and
 			// components only): other render paths are reached first
 			fl := specgen.Flags{Client: true, NoAPIHandler: (mi+bi)%3 == 2}
+			// ... and some are served under a name without extension / with odd dots
+			switch (mi + 2*bi) % 11 {
+			case 3:
+				fl.SpecName = "openapi"
+			case 7:
+				fl.SpecName = "spec."
+			case 9:
+				fl.SpecName = ".json"
+			}
 			cases = append(cases, specgen.Case{ID: "mut/" + b.id + "/" + m.ID, Family: "mutant", Spec: m.Doc,
 				Flags: fl, Label: map[string]string{"op": m.Op, "base": b.id}})
 			ops[strings.SplitN(m.Op, "=", 2)[0]]++
